@@ -28,7 +28,7 @@ BASE = {
         "open": 7, "add": 8, "close": 5, "drop": 2.5, "reconnect": 3, "ping": 0.7,
         "adv_small": 4, "adv_min": 2, "adv_sweep": 1.5, "adv_phase": 0.7, "adv_long": 0.4,
         "restart": 0.8, "kill": 0.3, "bad": 0.8, "stall": 0.2, "jump": 0.0, "dbfault": 0.0,
-        "persona": 1.5, "bulk": 0.0, "third": 0.5, "resend": 1.0, "split": 0.2, "idle_sub": 0.2, "late_claim": 0.1, "reuse": 0.15, "exhaust": 0.0, "dormant": 0.05, "boundary": 0.05, "revenant": 0.05,
+        "persona": 1.5, "bulk": 0.0, "third": 0.5, "resend": 1.0, "split": 0.2, "idle_sub": 0.2, "late_claim": 0.1, "reuse": 0.15, "exhaust": 0.0, "dormant": 0.05, "boundary": 0.05, "revenant": 0.05, "foreign": 0.05,
     },
 }
 
@@ -62,7 +62,7 @@ PROFILES = {
                       "drop": 4, "restart": 1.0, "add": 6}),
     "C06": profile(napps=(2, 3), names=2, literal_ids=2, share_ids_p=0.12, numeric_app_p=0.15, case_app_p=0.2,
                    w={"restart": 1.5, "adv_sweep": 1.5, "adv_long": 1.2, "connect_unbound": 1.5, "split": 1.5,
-                      "late_claim": 1.0, "idle_sub": 0.5, "dormant": 1.2}),
+                      "late_claim": 1.0, "idle_sub": 0.5, "dormant": 1.2, "foreign": 0.3}),
     "C07": profile(crash_p=0.012, names=4, nsides=(2, 3),
                    w={"claim": 12, "allocate": 5, "release": 10, "list": 5, "close": 6, "open": 5, "add": 3,
                       "reconnect": 4, "resend": 2}),
@@ -73,9 +73,9 @@ PROFILES = {
     "C12": profile(crash_p=0.012, autoping_p=0.5, steps=(12, 50), names=3, odd_app_p=0.15,
                    w={"adv_phase": 5, "adv_sweep": 5, "adv_min": 4, "adv_long": 1.5, "stall": 0.8, "add": 8,
                       "open": 8, "restart": 1.0, "kill": 0.4, "drop": 3, "jump": 0.3, "close": 2, "release": 2, "split": 1.0, "idle_sub": 1.0, "late_claim": 1.0}),
-    "C13": profile(crash_p=0.02, quiesce_p=1.0, steps=(8, 40), jumps=[0.5, 30.0, 700.0, 3600.0], share_ids_p=0.08,
+    "C13": profile(crash_p=0.02, quiesce_p=1.0, steps=(8, 40), jumps=[0.5, 30.0, 700.0, 3600.0], share_ids_p=0.2, napps=(1, 3),
                    w={"dbfault": 0.8, "jump": 0.3, "adv_sweep": 2.5, "adv_long": 1.0, "third": 1.5, "reconnect": 4, "resend": 2,
-                      "drop": 4, "close": 6}),
+                      "drop": 4, "close": 6, "foreign": 0.8}),
     "C15": profile(usage_p=1.0, nsides=(2, 4), steps=(10, 45),
                    w={"close": 9, "release": 7, "persona": 3, "adv_long": 1.2, "third": 1.5, "adv_sweep": 2,
                       "kill": 0.0}),
@@ -654,6 +654,37 @@ class Gen(object):
             out += o + self.a_open(c, mb)
         return out
 
+    def a_foreign(self):
+        """one mailbox id, two applications, overlapping lifetimes: two sides of one app use it,
+        a client of another app opens the same id and stays, the first app's sides close, and
+        only then does the other app's client add"""
+        r = self.rng
+        if len(self.apps) < 2:
+            return self.a_reuse()
+        one, two = r.sample(self.apps, 2)
+        s1, s2 = r.sample(self.sides, 2) if len(self.sides) >= 2 else (self.sides[0], self.sides[0])
+        a, out = self.a_connect(app=one, side=s1)
+        if r.random() < 0.5:
+            out += self.a_claim(a, self.name_for(a))
+            mb = {"ref": "claimed", "c": a.id}
+        else:
+            mb = r.choice(["mbx0", "mbx1", "shared-id"])
+        out += self.a_open(a, mb) + self.a_add(a)
+        b, o = self.a_connect(app=one, side=s2)
+        out += o + self.a_open(b, mb)
+        x, o = self.a_connect(app=two, side=r.choice([s1, s2]))
+        out += o + self.a_open(x, mb)
+        order = [a, b]
+        r.shuffle(order)
+        for c in order:
+            if c.claimed is not None and r.random() < 0.6:
+                out += self.a_release(c)
+            out += self.a_close(c)
+        out += self.a_add(x)
+        if r.random() < 0.5:
+            out += self.a_close(x)
+        return out
+
     def a_reuse(self):
         """a mailbox id lives twice: one side on two connections, the last close comes over one of
         them, the other lingers; then other sides use the same id again"""
@@ -825,6 +856,7 @@ class Gen(object):
             acts.append(("dormant", w.get("dormant", 0)))
             acts.append(("boundary", w.get("boundary", 0)))
             acts.append(("revenant", w.get("revenant", 0)))
+            acts.append(("foreign", w.get("foreign", 0)))
             dead = [c for c in self.conns.values() if not c.alive and c.app is not None]
             if dead:
                 acts.append(("reconnect", w["reconnect"]))
@@ -872,6 +904,8 @@ class Gen(object):
             return self.a_boundary()
         if a == "revenant":
             return self.a_revenant()
+        if a == "foreign":
+            return self.a_foreign()
         if a in ("reconnect", "resend"):
             dead = [c for c in self.conns.values() if not c.alive and c.app is not None]
             return self.a_reconnect(r.choice(dead), resend=(a == "resend"))
